@@ -60,7 +60,18 @@ ChainSrc(ch, i, q) ==
             [] t.k = "D" -> [t EXCEPT !.f = i - 1]
             [] OTHER -> t
 
+\* ---- multi-extent disks (C10): T.exts is a sequence of extents [fmt, start, n, img], start / n in cells ----
+ExtIndex(q) == CHOOSE i \in 1..Len(T.exts) : T.exts[i].start <= q /\ q < T.exts[i].start + T.exts[i].n
+ExtentSrc(q) ==
+  LET i == ExtIndex(q)
+      x == T.exts[i]
+      t == CASE x.fmt = "flat" -> Data(0, q - x.start)
+             [] x.fmt = "vmdk" -> VmdkSrc(x.img, q - x.start)
+             [] x.fmt = "hds"  -> Hds!CellSrc(HdsImg(x.img), q - x.start)
+  IN IF t.k = "D" THEN [t EXCEPT !.f = i - 1] ELSE t
+
 Src(q) == CASE T.fmt = "chain" -> ChainSrc(T.chain, 1, q)
+            [] T.fmt = "extents" -> ExtentSrc(q)
             [] T.fmt = "vdi" -> Vdi!CellSrc(VdiImg(T.img), q)
             [] T.fmt = "vhd" -> Vhd!CellSrc(VhdImg(T.img), q)
             [] T.fmt = "hds" -> Hds!CellSrc(HdsImg(T.img), q)
